@@ -226,6 +226,7 @@ func (interp *Interpreter) cfg(root *node, sc *scope, importPath, pkgName string
 						ktyp = o.typ.key
 						vtyp = o.typ.val
 					case ptrT:
+						sc.add(sc.getType("int")) // Add a dummy type to store array shallow copy for range
 						ktyp = sc.getType("int")
 						vtyp = o.typ.val
 						if vtyp.cat == valueT {
